@@ -8,6 +8,14 @@ namespace Petl.Snapshot
 open Petl.Gen
 
 def expectedC09 : List (String × String) := [
+  ("file:comparison.py", "17971f67ee946013"),
+  ("file:config.py", "142bde514c82c29d"),
+  ("file:transform/basics.py", "ef1ded632cafe787"),
+  ("file:transform/dedup.py", "00c85272c501507a"),
+  ("file:transform/reductions.py", "edf72039afd74a8e"),
+  ("file:transform/sorts.py", "137f7e8a70e043fe"),
+  ("file:util/base.py", "771a68108eeb730d"),
+  ("file:util/counting.py", "fe901a5b473a2d17"),
   ("transform.reductions.MultiAggregateView", "991cad24f5d44e50"),
   ("transform.reductions.SimpleAggregateView", "234efe16a0c64fe4"),
   ("transform.reductions.groupselectfirst", "d6c100b970ef3e59"),
